@@ -48,12 +48,75 @@ def op_facts(report):
     return out
 
 
+META = {"level": "proof", "trusted_base": ["cbmc 6.11.0 dfcc", "cadical", "extractor"],
+        "assumptions": ["the owned SymEigsSolver satisfies its contracts from C05/C12 (constructor range check, compute() return == number of flagged pairs == eigenvectors().cols()); "
+                        "its accessor contracts (eigenvalues()/eigenvectors(nvec) return the flagged pairs in the same order) are proved here too (Herm.eigenvalues, Herm.eigenvectors)",
+                        "a new-expression whose constructor throws releases its own storage (C++ semantics)",
+                        "Eigen expression values are not modelled"],
+        "not_covered": ["U'U = I, V'V = I, A V = U S, A'U = V S (numerical)", "non-negativity/finiteness of sqrt of computed eigenvalues on rank-deficient input (F10, numerical)"],
+        "explanation": "structural clauses of C16 only"}
+
+
 def build(tier):
     report = {}
     ops = op_facts(report)
-    mem = X.members(H, "PartialSVDSolver")
-    if mem != ["m_mat", "m_m", "m_n", "m_op", "m_eigs", "m_nconv", "m_evecs"]:
-        raise X.ExtractionBreak("PartialSVDSolver members changed: %r" % mem)
+    mem_all = X.members(H, "PartialSVDSolver")
+    mem = ["m_mat", "m_m", "m_n", "m_op", "m_eigs", "m_nconv", "m_evecs"]
+    if [m for m in mem_all if m in mem] != mem:
+        raise X.ExtractionBreak("PartialSVDSolver members changed: %r" % mem_all)
+    groups = [cache_coverage(report)]
+    if mem_all != mem:
+        # members were ADDED: the contracts below know nothing about them.  The static cache-coverage obligation above still decides; the skeleton part is
+        # extracted as far as the rules still apply and is UNDECIDED otherwise.
+        report["added members"] = [m for m in mem_all if m not in mem]
+    try:
+        groups += _skeleton_groups(tier, report, ops, mem)
+    except X.ExtractionBreak as e:
+        if mem_all == mem and not groups[0].ok is False:
+            raise
+        groups.append(z3lemma.StaticGroup("svd.extraction", ok=False, detail=str(e), obligation="extraction of PartialSVDSolver", undecided_on_fail=True))
+    meta = dict(META)
+    meta["extraction"] = report
+    return groups, meta
+
+
+def cache_coverage(report):
+    """Static obligation on the real text (supporting fact, WEAK: counts only if the native replay shows results of an earlier run): every data member that a
+    method other than the constructor and compute() writes - i.e. a cache filled lazily by the accessors - is re-initialised by compute() itself."""
+    raw, st = X.load(H)
+    b0, b1 = X.class_body(st, "PartialSVDSolver")
+    body = st[b0:b1]
+    mem_all = X.members(H, "PartialSVDSolver")
+    # member functions at nesting depth 0 of the class body
+    fns, i, depth = [], 0, 0
+    for m in re.finditer(r"([~\w]+)\s*\(([^(){};]*)\)\s*(?:const\s*)?(?::[^{;]*)?\{", body):
+        if body[:m.start()].count("{") - body[:m.start()].count("}") != 0:
+            continue
+        j = m.end() - 1
+        k = X.match_close(body, j)
+        fns.append((m.group(1), body[j:k + 1]))
+    wr = lambda txt, mb: bool(re.search(r"(?<![\w.>])%s(?:\.noalias\(\))?\s*(?:=(?!=)|\+=|-=)|(?<![\w.>])%s\.(?:resize|conservativeResize|swap|setZero|setConstant|noalias)\(" % (mb, mb), txt))
+    lazy, missing = {}, []
+    for mb in mem_all:
+        writers = [nm for nm, txt in fns if wr(txt, mb)]
+        outside = [nm for nm in writers if nm not in ("PartialSVDSolver", "compute")]
+        if outside:
+            lazy[mb] = writers
+            if "compute" not in writers:
+                missing.append("%s (written by %s, never by compute())" % (mb, ", ".join(sorted(set(outside)))))
+    report["lazily filled members"] = lazy
+    if "m_evecs" not in lazy and not missing:
+        raise X.ExtractionBreak("cache_coverage: the scan no longer sees the lazily filled eigenvector cache m_evecs (methods found: %s)" % [f[0] for f in fns])
+    g = z3lemma.StaticGroup("svd.cache.coverage", ok=not missing,
+                            detail=("not re-initialised by compute(): " + "; ".join(missing)) if missing else
+                                   "lazily filled by accessors and re-initialised by compute(): %s" % ", ".join(sorted(lazy)),
+                            obligation="every member that the accessors fill lazily is re-initialised by compute() (no result of an earlier run can be returned)")
+    if missing:
+        g.weak = "a cache may also be invalidated indirectly; only results of an earlier run returned by the real accessors count"
+    return g
+
+
+def _skeleton_groups(tier, report, ops, mem):
     groups = []
     stubs = r'''
 static void *NEW_OBJ(void) { void *p = malloc(1); __CPROVER_assume(p != NULL); live_allocs++; return p; }
@@ -196,14 +259,7 @@ static Mat EIGS_eigenvectors(SVD *S, Index nvec)
     srep = {}
     groups += [g for g in SG.select("C05", ["herm"], srep) if g.name in ("Herm.eigenvalues", "Herm.eigenvectors")]
     report["solver accessors"] = {k: v for k, v in srep.items() if "eigenv" in k}
-    meta = {"level": "proof", "trusted_base": ["cbmc 6.11.0 dfcc", "cadical", "extractor"],
-            "assumptions": ["the owned SymEigsSolver satisfies its contracts from C05/C12 (constructor range check, compute() return == number of flagged pairs == eigenvectors().cols()); "
-                            "its accessor contracts (eigenvalues()/eigenvectors(nvec) return the flagged pairs in the same order) are proved here too (Herm.eigenvalues, Herm.eigenvectors)",
-                            "a new-expression whose constructor throws releases its own storage (C++ semantics)",
-                            "Eigen expression values are not modelled"],
-            "not_covered": ["U'U = I, V'V = I, A V = U S, A'U = V S (numerical)", "non-negativity/finiteness of sqrt of computed eigenvalues on rank-deficient input (F10, numerical)"],
-            "extraction": report, "explanation": "structural clauses of C16 only"}
-    return groups, meta
+    return groups
 
 
 MANIFEST = {
